@@ -156,6 +156,9 @@ def run_check(mod, tier, seed, nproc, triage=None, limit_units=None):
     t0 = time.time()
     prop = mod.ID
     units = list(mod.units(tier))
+    if os.environ.get("MC_UNIT_FILTER"):  # debugging aid only
+        flt = os.environ["MC_UNIT_FILTER"]
+        units = [u for u in units if eval(flt, {"u": u})]
     if limit_units:
         units = units[:limit_units]
     rnd = random.Random(seed)
